@@ -15,3 +15,4 @@ import SpoxModel.Props.C02
 #print axioms C02.generated_build_safe
 #print axioms C02.build_returns_only_checked
 #print axioms C02.adapter_names_counterexample
+#print axioms C02.sibling_names_counterexample
